@@ -17,8 +17,9 @@ Ties:
     pairs with an OLDER tracker image) is reopened with OpenLedger; the harness prints the raw durable rounds (B, T), the
     recovered latest round, the block hashes, a digest of a full dump (accounts with all resources, creators, boxes,
     online data for every round, tx tail, totals) at the recovered latest, and continues the recovered ledger by one block.
- M  monitors on the implementation alone: latest = B; blocks 1..B are the added ones and B+1 is absent; every block whose
-    WaitForCommit returned before the crash instant is <= B; the dump equals the dump of a FRESH ledger that simply replays
+ M  monitors on the implementation alone: latest = B; blocks 1..B are the added ones and B+1 is absent; every round the ledger
+    ACKNOWLEDGED as durable before the crash instant (WaitForCommit returned, the channel of Ledger.Wait(r) closed - polled after
+    every step, LatestCommitted's first component) is <= B with the same block (theorem ack_durable); the dump equals the dump of a FRESH ledger that simply replays
     blocks 1..B (implementation-vs-implementation oracle); the recovered ledger accepts block B+1 and then equals oracle[B+1].
  A  the proved acceptor (exe c09 = Model.Durable): every observed event must be an enabled step of the model, and the model's
     prediction of (B, T, confirmed, pair kind) for every crash image pair must equal what the harness measured.
@@ -71,7 +72,7 @@ def hooked_overlay(ctx):
 
 
 # acceptor rules whose violation contradicts the property text itself (the others mean model / environment drift)
-SAFETY = {"commit-past-lastCommitted", "confirmed-beyond-lastCommitted", "put-round", "flush-not-at-lastCommitted",
+SAFETY = {"commit-past-lastCommitted", "confirmed-beyond-lastCommitted", "acknowledged-beyond-lastCommitted", "put-round", "flush-not-at-lastCommitted",
           "flush-beyond-queue", "notify-not-lastCommitted", "round-twice", "round-outside-txn", "post-dbRound-mismatch",
           "dbRound-changed-without-commit", "reload-rounds"}
 EVENT_OPS = ("hist", "blk", "bq", "tr", "reload")
@@ -109,7 +110,8 @@ def monitor_open(f, res):
     if T > B:
         return "tracker DB round %d is ahead of the durable block round %d" % (T, B)
     if int(f.get("confirmed", 0)) > B:
-        return "WaitForCommit(%s) had returned before the crash instant, but the crash image holds only %d blocks" % (f["confirmed"], B)
+        return ("round %s had been acknowledged as durable before the crash instant (WaitForCommit returned / the Ledger.Wait channel was closed / "
+                "LatestCommitted), but the crash image holds only %d blocks" % (f["confirmed"], B))
     if latest != B:
         return "reopened ledger is at round %d, the block DB of the image holds %d" % (latest, B)
     if f["hashes"] != "ok":
